@@ -27,13 +27,14 @@ impl LintContext {
         } = lint.clone();
 
         let problem_tokens = document.token_indices_intersecting(lint.span);
-        let prequel_tokens = lint
-            .span
-            .with_len(2)
-            .pulled_by(2)
-            .map(|v| document.token_indices_intersecting(v))
-            .unwrap_or_default();
-        let sequel_tokens = document.token_indices_intersecting(lint.span.with_len(2).pushed_by(2));
+        // The two characters before the start of the problem (fewer at the start of the text)...
+        let prequel_tokens = document.token_indices_intersecting(crate::Span::new(
+            lint.span.start.saturating_sub(2),
+            lint.span.start,
+        ));
+        // ...and the two characters after its END.
+        let sequel_tokens =
+            document.token_indices_intersecting(crate::Span::new_with_len(lint.span.end, 2));
 
         let tokens = prequel_tokens
             .into_iter()
